@@ -1,4 +1,5 @@
 """C18 — batch tensors behave as independent stacks of ordinary tensors."""
+import random
 import numpy as np, torch, random
 import core
 from core import PT, gen_tensor, gen_format, from_tn, parse_tensor, cmp_struct, close, q, safe, tn
@@ -59,9 +60,65 @@ def elem_of(bt, b):
     return PT([c[b].detach().double().numpy() for c in bt.cores], [None if U is None else U[b].detach().double().numpy() for U in bt.Us])
 
 
+_EQS = None
+
+
+def source_einsums():
+    """every einsum equation string of /repo/tntorch/*.py, as spelled in the source (the same literal test extract.py uses)"""
+    global _EQS
+    if _EQS is None:
+        import ast, glob, re, os
+        pat = re.compile(r"^[A-Za-z.]+(,[A-Za-z.]+)*(->[A-Za-z.]*)?$")
+        eqs = set()
+        for f in sorted(glob.glob(os.path.join(os.path.dirname(tn.__file__), "*.py"))):
+            for n in ast.walk(ast.parse(open(f).read())):
+                if isinstance(n, ast.Constant) and isinstance(n.value, str) and ("," in n.value or "->" in n.value) and pat.match(n.value) \
+                        and len(n.value) <= 40 and "." not in n.value:
+                    eqs.add(n.value)
+        _EQS = sorted(eqs)
+    return _EQS
+
+
+def run_einsum(ctx, case):
+    """the Lean einsum evaluator (Model/Einsum.lean; theorems C18.einsum_batch_lift, batched_einsums_slicewise) against torch.einsum on an
+    equation of the source; for a batched equation additionally the statement of the theorem itself on the real kernel: slot b of the
+    batched contraction = the plain contraction of the b-th slices"""
+    rng = random.Random(case["seed"])
+    eqs = source_einsums()
+    eq = eqs[case["eq"] % len(eqs)]
+    lhs = eq.split("->")[0]
+    ins = lhs.split(",")
+    letters = sorted(set("".join(ins)))
+    dims = {c: rng.randint(1, 3) for c in letters}
+    ctx.case(("einsum", eq, tuple(sorted(dims.items()))), True, {"op": "einsum evaluator vs torch.einsum", "equation": eq, "dims": dims})
+    ctx.count("einsum")
+    ops = [torch.tensor(np.array([rng.randint(-3, 3) for _ in range(int(np.prod([dims[c] for c in l])))], dtype=np.float64).reshape([dims[c] for c in l]))
+           for l in ins]
+    want = torch.einsum(eq, *ops)
+    if getattr(ctx, "use_model", False) and not getattr(ctx, "search_only", False):
+        toks = ["einsum", eq, str(len(letters))]
+        for c in letters:
+            toks += [c, str(dims[c])]
+        toks.append(str(len(ins)))
+        for t in ops:
+            toks += [str(int(v)) for v in t.flatten().tolist()]
+        a = ctx.drv().call(" ".join(toks))
+        got = [int(core.unq(x.split("~")[0])) for x in a[2:]] if a[0] == "ok" else None
+        if got != [int(v) for v in want.flatten().tolist()]:
+            ctx.corr("einsum %r: model evaluator %s, torch.einsum %s" % (eq, a[:8], want.flatten().tolist()[:8]), case)
+    # batched equations: first letter of every operand and of the output is the same letter occurring nowhere else
+    out = eq.split("->")[1] if "->" in eq else None
+    if out and all(l and l[0] == ins[0][0] for l in ins + [out]) and all(ins[0][0] not in l[1:] for l in ins + [out]):
+        plain = ",".join(l[1:] for l in ins) + "->" + out[1:]
+        ctx.count("einsum:batched equation")
+        for b in range(dims[ins[0][0]]):
+            if not torch.equal(want[b], torch.einsum(plain, *[t[b] for t in ops])):
+                ctx.oracle("torch.einsum(%r)[%d] differs from torch.einsum(%r) of the slices" % (eq, b, plain), case)
+
+
 def cases(rng, tier):
     n = {"quick": 900, "thorough": 6000, "search": 2000}[tier]
-    out = []
+    out = [{"op": "einsum", "eq": k, "seed": rng.randrange(1 << 30)} for k in range({"quick": 90, "thorough": 400, "search": 0}[tier])]
     for _ in range(n):
         B = rng.randint(1, 4)
         N = rng.randint(2, 4)
@@ -128,6 +185,8 @@ def per_elem(ctx, case, what, bt, expected, tol=1e-9, cls=None):
 
 
 def run_case(ctx, case):
+    if case["op"] == "einsum":
+        return run_einsum(ctx, case)
     use_model = getattr(ctx, "use_model", False) and not getattr(ctx, "search_only", False)
     op, B = case["op"], case["B"]
     xs = [PT.from_json(j) for j in case["x"]]
